@@ -642,6 +642,7 @@ pub mod harness {
         if p.check_threads && !p.depths.is_empty() {
             let active = |k: usize| p.depths.iter().filter(|&&d| d > k).count();
             let mut seen: BTreeMap<(usize, usize), (usize, usize)> = BTreeMap::new(); // (step, branch) -> (thread, tid)
+            let mut started: BTreeSet<usize> = BTreeSet::new();
             for o in &ex.ops {
                 let (b, k) = match (branch_of(&o.site), step_of(&o.site)) {
                     (Some(b), Some(k)) if k < 90 => (b, k),
@@ -656,6 +657,17 @@ pub mod harness {
                     }
                 };
                 if active(k) > 1 {
+                    // "all alive at the same time, none waiting for a sibling": when the FIRST expression of the step runs no thread of
+                    // the step can have finished yet (each runs at least one visible expression), so all of them must exist
+                    if started.insert(k) && o.thread != 0 {
+                        let live = o.live_others.iter().filter(|t| **t != 0).count() + 1;
+                        if live != active(k) {
+                            return Some(format!(
+                                "when the first expression of step {} runs (branch {}), {} of the step's {} threads exist: the branches of a step are not alive at the same time (a thread is created only after a sibling has finished)",
+                                k, b, live, active(k)
+                            ));
+                        }
+                    }
                     let want = match caller {
                         Some(c) => format!("{}_join_{}", c, b),
                         None => format!("join_{}", b),
